@@ -95,6 +95,17 @@ func main() {
 		os.Exit(runSelftest(os.Args[2:]))
 	case "multi":
 		os.Exit(runMulti(os.Args[2:]))
+	case "sibdelta": // promverif sibdelta <aRef> <bRef> [hist]
+		p, err := eng.Load(eng.LoadOpts{})
+		if err != nil {
+			fmt.Println(err)
+			os.Exit(2)
+		}
+		var ren [][2]string
+		if len(os.Args) > 4 && os.Args[4] == "hist" {
+			ren = histRenames
+		}
+		fmt.Println(eng.NewCtx(p, "x", "quick").SiblingDelta(os.Args[2], os.Args[3], ren))
 	case "cfg":
 		p, err := eng.Load(eng.LoadOpts{})
 		if err != nil {
